@@ -360,12 +360,16 @@ func (p *Persister) triggerFlush(ctx context.Context) {
 		writeDone:     make(chan struct{}),
 		callbacksDone: make(chan struct{}),
 	}
+	// prev's write is done (awaited above) but its callbacks may still be
+	// running; st.callbacksDone is only closed once they are too, so waiting on
+	// the LATEST generation (WaitPendingWrites) really covers every earlier one.
+	prev := p.flush
 	p.flush = st
-	go p.flushNow(ctx, batch, st)
+	go p.flushNow(ctx, batch, st, prev)
 }
 
 // flushNow will flush the state to the store.
-func (p *Persister) flushNow(ctx context.Context, batch map[string]persistData, st *flushState) {
+func (p *Persister) flushNow(ctx context.Context, batch map[string]persistData, st *flushState, prev *flushState) {
 	defer close(st.writeDone)
 	start := p.clock.Now()
 
@@ -398,10 +402,26 @@ func (p *Persister) flushNow(ctx context.Context, batch map[string]persistData, 
 	// by anyone else, so it cannot be reused underneath a Wait; the closer
 	// goroutine below converts it into a channel close, which is what callers
 	// actually observe.
+	p.runCallbacks(batch, st, prev, err)
+
+	p.logger.Debug(ctx).
+		Err(err).
+		Int("count", len(batch)).
+		Dur(log.DurationField, p.clock.Now().Sub(start)).
+		Msg("persisted connectors")
+}
+
+// runCallbacks invokes every callback of a flush generation with err and closes
+// st.callbacksDone once they have all returned AND the previous generation's
+// callbacks have returned too. Generations can overlap (a new flush only waits
+// for the previous WRITE), so without that chaining a caller waiting on the
+// latest generation - Source.Teardown's final flush wait - could proceed while
+// an earlier generation's callback, the one carrying its last deferred acks, had
+// not run yet; those acks were then dropped as "teardown already started".
+func (p *Persister) runCallbacks(batch map[string]persistData, st *flushState, prev *flushState, err error) {
 	var cbWg sync.WaitGroup
 	cbWg.Add(len(batch))
 	for _, data := range batch {
-		// execute callbacks in go routines to make sure they can't block this function
 		go func(cb PersistCallback) {
 			defer cbWg.Done()
 			cb(err)
@@ -409,12 +429,9 @@ func (p *Persister) flushNow(ctx context.Context, batch map[string]persistData, 
 	}
 	go func() {
 		cbWg.Wait()
+		if prev != nil {
+			<-prev.callbacksDone
+		}
 		close(st.callbacksDone)
 	}()
-
-	p.logger.Debug(ctx).
-		Err(err).
-		Int("count", len(batch)).
-		Dur(log.DurationField, p.clock.Now().Sub(start)).
-		Msg("persisted connectors")
 }
